@@ -2,7 +2,7 @@
    the functions of libmcount / utils/fstack.c it restates and for what is not modelled). *)
 From Coq Require Import NArith List Bool.
 Import ListNotations.
-Require Import UV.C11.Model UV.C11.StepBase UV.C11.Proofs UV.C11.ProofsDepth UV.C11.ProofsReplay UV.C11.StreamMain UV.C11.StepVfork.
+Require Import UV.C11.Model UV.C11.StepBase UV.C11.Proofs UV.C11.ProofsDepth UV.C11.ProofsReplay UV.C11.StreamMain UV.C11.StepVfork UV.C11.Empty.
 Local Open Scope N_scope.
 
 (* Every legal program - any mix, order and depth of traced / untraced / PLT calls, tail calls, setjmp,
@@ -217,3 +217,17 @@ Theorem C11_fentry_cleanup_refuted :
     legal_prog witness_fentry_cleanup = false.
 Proof. exact fentry_cleanup_refuted. Qed.
 Print Assumptions C11_fentry_cleanup_refuted.
+
+(* Whatever way the frames were left - returns, tail-call chains, longjmp across any number of frames, unwinding
+   through cleanup pads, catch, rethrow - once the program has left every frame (and no exception is in flight) the
+   shadow stack is empty and record_idx is zero: no entry of an abandoned frame stays behind. *)
+Theorem C11_all_frames_left_shadow_empty : forall ops st', rrun rinit ops = Some st' ->
+  exc st' = false -> frames st' = [] ->
+  exists s obs, lrun init ops = Some (s, obs) /\ rs s = [] /\ ridx s = 0.
+Proof. exact all_frames_left_shadow_empty. Qed.
+Print Assumptions C11_all_frames_left_shadow_empty.
+Theorem C11_all_frames_left_sample :
+  match rrun rinit sample_prog with Some st => (exc st, frames st) | None => (true, []) end = (false, []) /\
+  (10 < length sample_prog)%nat.
+Proof. exact sample_leaves_every_frame. Qed.
+Print Assumptions C11_all_frames_left_sample.
